@@ -968,6 +968,30 @@ ASSUMPTION_TEXT = ('the statement fixes what a call or operation evaluates to as
                    'the second time give the same record, error code included')
 
 
+
+# every route passes through these: when one of them changes, the quick tier of every routed check runs at 5x scale (they are
+# fingerprinted like the plugin's own FUNCTIONS; a changed fingerprint is not a verdict, DESIGN.md 1.2)
+_ACTIONS = ['p_expressions', 'p_expression_arithmetic_operator', 'p_expression_logical_operator', 'p_expression_uminus',
+            'p_expression_number', 'p_expression_string', 'p_expression_function', 'p_expression_wargs', 'p_expression_array', 'p_array',
+            'p_expseq_semicolon', 'p_expseq_comma', 'p_expseq_backslash', 'p_xlerror', 'p_error', 'p_expression_paren',
+            'p_expression_varseq', 'p_variable', 'p_variable_seq', 'p_expression_cell', 'p_cell']
+_TOKENS = ['t_WHITESPACE', 't_STRING', 't_FUNCTION', 't_XLERROR', 't_ABSOLUTE_CELL', 't_MIXED_CELL', 't_RELATIVE_CELL', 't_VARIABLE',
+           't_NUMBER', 't_error']
+FRONT_END = (['hotxlfp.parser:Parser.__init__', 'hotxlfp.parser:Parser.parse', 'hotxlfp.parser:Parser.call_function',
+              'hotxlfp.parser:Parser.call_variable', 'hotxlfp.parser:Parser.call_cell_value', 'hotxlfp.parser:Parser.call_range_value',
+              'hotxlfp.parser:Parser.set_variable', 'hotxlfp.parser:Parser.set_function', 'hotxlfp.parser:Parser._throw_error',
+              'hotxlfp.grammarparser.parser:Parser.__init__', 'hotxlfp.grammarparser.parser:Parser.parse',
+              'hotxlfp.helper.number:to_number', 'hotxlfp.helper.cell:extract_label', 'hotxlfp.helper.cell:to_label',
+              'hotxlfp.formulas:Dispatcher.register_for', 'hotxlfp.formulas:Dispatcher.get_for', 'hotxlfp.formulas:get_for',
+              'hotxlfp.formulas.error:from_message', 'hotxlfp.formulas.utils:iflatten', 'hotxlfp.formulas.utils:flatten',
+              'hotxlfp.formulas.utils:inumbers', 'hotxlfp.formulas.utils:parse_number', 'hotxlfp.formulas.utils:parse_date',
+              'hotxlfp.formulas.utils:serialize_date', 'hotxlfp.formulas.utils:parse_criteria', 'hotxlfp.formulas.utils:any_is_error',
+              'hotxlfp.formulas.operators:value_and_type', 'hotxlfp.formulas.operators:evaluate_arithmetic',
+              'hotxlfp.formulas.operators:evaluate_logic', 'hotxlfp.tinyemitter:Emitter.on', 'hotxlfp.tinyemitter:Emitter.emit']
+             + ['hotxlfp.grammarparser.parser:FormulaParser.' + a for a in _ACTIONS]
+             + ['hotxlfp.grammarparser.lexer:' + t for t in _TOKENS])
+
+
 class Routed(object):
     """a plugin plus the case kind `route`"""
 
@@ -977,6 +1001,8 @@ class Routed(object):
         self.RULE = getattr(plugin, 'RULE', '') + RULE_TEXT
         self.TRUSTED = list(getattr(plugin, 'TRUSTED', [])) + [TRUSTED_TEXT]
         self.ASSUMPTIONS = list(getattr(plugin, 'ASSUMPTIONS', [])) + [ASSUMPTION_TEXT]
+        own = list(getattr(plugin, 'FUNCTIONS', []))
+        self.FUNCTIONS = own + [q for q in FRONT_END if q not in own]
 
     def __getattr__(self, name):
         return getattr(self._p, name)
